@@ -80,11 +80,13 @@ func RunPlan(p *Plan, dir string, keepTrace bool) (res *Result) {
 	d.lastLoc = map[string]string{}
 	var oracleMu sync.Mutex
 	w.OnBackchannel = func(e *Exchange) {
+		defer thePauser.harness()()
 		oracleMu.Lock()
 		defer oracleMu.Unlock()
 		d.O.judgeProfileAnswer(e)
 	}
 	w.OnExchange = func(e *Exchange) {
+		defer thePauser.harness()()
 		oracleMu.Lock()
 		defer oracleMu.Unlock()
 		e.Overlap = d.overlapping
@@ -294,14 +296,23 @@ func (d *Driver) exec(st *Step) {
 func (d *Driver) twin(st *Step) {
 	link := "proxy>" + AuthHost
 	kind := simnet.FaultDelay
-	if st.Op == "authreq" || (st.Op == "pending" && st.Endpoint == "auth") {
+	if st.Op == "authreq" || st.Op == "backchannel" || (st.Op == "pending" && st.Endpoint == "auth") {
 		link = "auth>" + map[string]string{"okta": OktaHost, "google": GoogleAPI}[d.P.Cfg.Provider]
 	}
 	if st.Sub == "slow-upstream-dial" {
 		// the first request is signed and then waits to connect to its backend while the second one runs
 		link, kind = "proxy-up>"+st.Name, simnet.FaultSlowDial
 	}
-	d.W.Net.Arm(link, simnet.Fault{Kind: kind, Count: 1, Dur: 100 * time.Millisecond})
+	paused := st.Pause != nil && PauseAvailable()
+	if paused {
+		// statement-level pre-emption instead of a slow link: one goroutine of the first request is held
+		// just before its K-th statement in the handlers while the second request runs
+		thePauser.arm(*st.Pause)
+		d.Res.fault("pause.statement")
+		d.Res.FaultFree = false
+	} else {
+		d.W.Net.Arm(link, simnet.Fault{Kind: kind, Count: 1, Dur: 100 * time.Millisecond})
+	}
 	gap := st.Dur
 	if gap == 0 {
 		gap = 50 * time.Millisecond
@@ -318,6 +329,10 @@ func (d *Driver) twin(st *Step) {
 			d.pending(s, b)
 			return
 		}
+		if s.Op == "backchannel" {
+			d.backchannel(s, b)
+			return
+		}
 		b.Do(d.reqOf(s))
 	}
 	var wg sync.WaitGroup
@@ -326,16 +341,25 @@ func (d *Driver) twin(st *Step) {
 	first.Twin = nil
 	go func() {
 		defer wg.Done()
+		defer thePauser.harness()() // the client side of the request is harness code
 		one(&first)
 	}()
 	go func() {
 		defer wg.Done()
+		defer thePauser.harness()()
 		time.Sleep(gap)
 		one(st.Twin)
 	}()
 	wg.Wait()
 	d.overlapping = false
-	d.W.Net.Disarm(link)
+	if paused {
+		if site := thePauser.disarm(); site != "" {
+			d.Res.probe("pause_fired")
+			d.Res.cover("pause|" + site)
+		}
+	} else {
+		d.W.Net.Disarm(link)
+	}
 }
 
 const b64urlAlphabet = "ABCDEFGHIJKLMNOPQRSTUVWXYZabcdefghijklmnopqrstuvwxyz0123456789-_"
